@@ -844,6 +844,14 @@ def plan(pid: str, tier: str, rng: random.Random) -> list[dict]:
                 for kind in ("before", "after", "on_failure"):
                     for ch in st.get(kind, []):
                         add(kind="policy", policy="starve:" + ch["ref"], spec=spec, name=name)
+    if pid in ("C03",):
+        # the recovery sweep also decides which NOT_STARTED stages to (re)start: sweeps before every step of the join families,
+        # and a crash at every second commit followed by recovery
+        for n in ("diamond", "first_of", "quorum", "or_split", "fail_next_to_branch", "first_of_leaf", "syn_before_chain", "skip_disabled"):
+            for at in range(0, 30 if thorough else 20):
+                add(kind="inject", what="recover", at=at, times=1, spec=fam[n], name=n, policy=("fifo" if at % 2 else "lifo"))
+            for at in range(0, 60 if thorough else 40, 2):
+                add(kind="crash", at=at, spec=fam[n], name=n, drain=("fifo" if at % 4 else "lifo"))
     if pid in ("C02",):
         # redelivery / reordering of the messages a plain run never has: SignalStage, CancelWorkflow / CancelStage, ResumeStage
         for at in range(0, 12):
